@@ -217,6 +217,11 @@ class Node(ModelElement):
                     (node_sliver.property_exists(rp) and not node_sliver.get_property(rp)):
                 raise TopologyException(f"Node of type {nstype} must have property {rp} set")
         for fp in forb_props:
+            if fp == 'attached_components_info':
+                # not a property of the node itself: components hang off the node in the model
+                if len(self.components) > 0:
+                    raise TopologyException(f"Node of type {nstype} must NOT have components attached")
+                continue
             if node_sliver.property_exists(fp) and node_sliver.get_property(fp):
                 raise TopologyException(f"Node of type {nstype} must NOT have property {fp} set")
 
